@@ -81,6 +81,53 @@ HistPnGhost(id, c) ==
         v38  |-> IF h38 = <<>> THEN None
                  ELSE IF hn # <<>> /\ hn[1] > h38[1] THEN None ELSE CcVal(h38[2])]
 
+(************ history form of the C13 / C14 monitor state (declarative) *****)
+(* The ghost state of the polling monitor, defined directly over the recorded *)
+(* history instead of by step-wise bookkeeping: "the most recent controller-6  *)
+(* byte", "a poll at or after its deadline has happened since", ...            *)
+(* Rel = indices of the events of this instance's lineage on channel c since    *)
+(* creation / reset (feeds whose message is on c, polls of c).                  *)
+RECURSIVE RelSet(_, _, _)
+RelSet(j, id, c) ==
+    IF j < 1 THEN {}
+    ELSE LET e == Rec[j] IN
+         IF e.op \in {"new", "reset"} /\ e.id = id THEN {}
+         ELSE IF e.op = "copy" /\ e.to2 = id THEN RelSet(j - 1, e.id, c)
+         ELSE IF (e.op = "feed" /\ e.id = id /\ MsgChannel(e.m) = c) \/ (e.op = "poll" /\ e.id = id /\ e.ch = c)
+              THEN {j} \cup RelSet(j - 1, id, c)
+         ELSE RelSet(j - 1, id, c)
+
+MaxOr0(S) == IF S = {} THEN 0 ELSE CHOOSE x \in S : \A y \in S : y <= x
+
+HistPg(id, c, to) ==
+    LET rel   == RelSet(l - 1, id, c)
+        F(cns) == {j \in rel : Rec[j].op = "feed" /\ IsCC(Rec[j].m) /\ CcNum(Rec[j].m) \in cns}
+        jm == MaxOr0(F({99, 101}))   jl == MaxOr0(F({98, 100}))   jn == MaxOr0(F({98, 99, 100, 101}))
+        j6 == MaxOr0(F({6}))         j38 == MaxOr0(F({38}))       jc == MaxOr0(F(PnControllers))
+        T(j) == 2 * Rec[j].now                                   \* half-milliseconds
+        LatePollAfter(j0) == \E p \in rel : p > j0 /\ Rec[p].op = "poll" /\ to # Inf /\ T(p) - T(j0) >= to
+        CompleteBefore(j) == (\E x \in F({99, 101}) : x < j) /\ (\E x \in F({98, 100}) : x < j)
+        lastKind == IF jc = 0 THEN "none"
+                    ELSE LET n == CcNum(Rec[jc].m) IN
+                         IF n \in {98, 99, 100, 101} THEN "num" ELSE IF n = 6 THEN "cc6"
+                         ELSE IF n = 38 THEN "cc38" ELSE "incdec"
+    IN [nm   |-> IF jm = 0 THEN None ELSE CcVal(Rec[jm].m),
+        nl   |-> IF jl = 0 THEN None ELSE CcVal(Rec[jl].m),
+        kind |-> IF jn = 0 THEN FALSE ELSE CcNum(Rec[jn].m) \in {100, 101},
+        c6   |-> IF j6 = 0 THEN None ELSE CcVal(Rec[j6].m),
+        c6t  |-> IF j6 = 0 THEN 0 ELSE T(j6),
+        c38  |-> IF j38 = 0 THEN None ELSE CcVal(Rec[j38].m),
+        c38t |-> IF j38 = 0 THEN 0 ELSE T(j38),
+        \* the most recent controller-6 byte has already appeared in a data-entry report
+        rep  |-> j6 > 0 /\ (Has14(Rec[j6].out) \/ \E k \in rel : k > j6 /\ HasEntry(Rec[k].out)),
+        last |-> lastKind,
+        \* the unpaired LSB has met a poll at or after its deadline
+        late38 |-> lastKind = "cc38" /\ LatePollAfter(j38),
+        \* a controller-6 byte fed with a complete number, not reported as 14-bit at once, still before its
+        \* deadline (the next contributing message on the channel or the first poll after the timeout)
+        owe  |-> /\ j6 > 0 /\ CompleteBefore(j6) /\ ~Has14(Rec[j6].out)
+                 /\ jc = j6 /\ ~LatePollAfter(j6)]
+
 (**************************** common monitors ******************************)
 ReportInRange(k, r) ==
     IF k = "cc14" THEN r[1] \in 0..15 /\ r[2] \in 0..31 /\ r[3] \in 0..16383
@@ -149,6 +196,7 @@ FeedEv(e) ==
         r  == IF c = None THEN [st |-> cs.m, out |-> <<>>] ELSE MachineFeed(i.k, cs.m, e.m, i.now)
         gg == IF UseHistory /\ c # None /\ i.k = "cc14" THEN HistCc14Ghost(e.id, c)
               ELSE IF UseHistory /\ c # None /\ i.k = "pn" THEN HistPnGhost(e.id, c)
+              ELSE IF UseHistory /\ c # None /\ i.k = "poll" THEN HistPg(e.id, c, i.to)
               ELSE cs.g
         gap == Has(e, "gap") /\ e.gap
         total == IF Has(e, "grp") /\ e.grp.i > 1 THEN i.acc \o e.out ELSE e.out
@@ -161,10 +209,10 @@ FeedEv(e) ==
                            (IF e.out = PnExpected(gg, e.m) THEN {} ELSE {<<"C11", "exact">>})
                       [] i.k = "poll" ->
                            {<<IF x \in {"C13l", "C13p"} THEN "C13" ELSE "C14", x>> :
-                                x \in PollFeedViolations(cs.g, e.m, e.out, gap, i.now, i.to)}
+                                x \in PollFeedViolations(gg, e.m, e.out, gap, i.now, i.to)}
         c16 == IF c # None /\ NonContributing(i.k, e.m) /\ ~(e.out = <<>> /\ e.eqp)
                THEN {<<"C16", "transparent">>} ELSE {}
-        ghostOK == (UseHistory /\ c # None /\ i.k \in {"cc14", "pn"}) => gg = cs.g
+        ghostOK == (UseHistory /\ c # None) => gg = cs.g
         g2 == IF c = None THEN cs.g ELSE GhostFeed(i.k, cs.g, e.m, e.out, i.now)
         i2 == IF c = None THEN i ELSE [i EXCEPT !.ch = SetChan(i.ch, c, [m |-> r.st, g |-> g2])]
         i3 == [i2 EXCEPT !.acc = IF Has(e, "grp") THEN total ELSE i2.acc]
@@ -194,8 +242,9 @@ PollEv(e) ==
         cs == ChanSt(i, c)
         r  == PollPoll(cs.m, c, i.now, i.to)
         total == IF Has(e, "grp") /\ e.grp.i > 1 THEN i.acc \o e.out ELSE e.out
+        gg == IF UseHistory THEN HistPg(e.id, c, i.to) ELSE cs.g
         mon == {<<IF x \in {"C13l", "C13p"} THEN "C13" ELSE "C14", x>> :
-                   x \in PollPollViolations(cs.g, c, e.out, i.now, i.to)}
+                   x \in PollPollViolations(gg, c, e.out, i.now, i.to)}
         early == Has(e, "early") /\ e.early
         g2 == PgPoll(cs.g, e.out, i.now, i.to)
         i2 == [i EXCEPT !.ch = SetChan(i.ch, c, [m |-> r.st, g |-> g2]),
@@ -215,6 +264,7 @@ PollEv(e) ==
                \cup (IF early /\ ~PollIsEarly(cs.g, i.now, i.to) THEN {<<"TOOL", "bad-early-flag">>} ELSE {}))
        /\ (IF r.out = e.out THEN TRUE ELSE PrintT(<<"DRIFT", "out", l>>))
        /\ (IF (e.eqp = (r.st = cs.m)) THEN TRUE ELSE PrintT(<<"DRIFT", "eqp", l>>))
+       /\ (IF gg = cs.g THEN TRUE ELSE PrintT(<<"TOOLERR", "ghost-vs-history", l>>))
        /\ inst' = SetInst(inst, e.id, i2)
        /\ mh' = Push(mh, r.out)
        /\ stats' = Bump(stats, keys)
